@@ -357,7 +357,12 @@ impl Planted {
                 let r1 = r0 * (0.3 + 0.4 * rng.unit());
                 let d = if rng.chance(1, 2) { r0 + r1 } else { r0 - r1 };
                 let c1 = self.circle(cx + d * a.cos(), cy + d * a.sin(), r1);
-                self.cons.push(Constraint::CircleTangentToCircle(c0, c1));
+                // either circle may be listed first (the larger one is not always the first argument)
+                if rng.chance(1, 2) {
+                    self.cons.push(Constraint::CircleTangentToCircle(c0, c1));
+                } else {
+                    self.cons.push(Constraint::CircleTangentToCircle(c1, c0));
+                }
             }
             "PointArcCoincident" => {
                 let a = self.any_arc(rng);
@@ -532,6 +537,73 @@ pub fn with_priorities(rng: &mut Rng, mut sys: System) -> System {
 }
 
 /// Add requests that contradict existing ones (second `Fixed` on the same id, a wrong distance, …).
+/// A system whose geometry is pinned exactly where several requests are *degenerate at the
+/// solution*: all geometry variables take values from a tiny pool (so coincident points, vertical,
+/// horizontal and zero-length lines, zero radii are frequent) and are pinned by `Fixed`; random
+/// requests of every shape are added when, at that configuration, they are either degenerate (their
+/// evaluation returns early and contributes nothing) or already satisfied; contradictory `Fixed`
+/// pairs on separate scalars are interleaved at random positions, so unsatisfied requests sit right
+/// next to degenerate ones in the request order.  The solve moves only the contradictory scalars.
+pub fn gen_pinned_degenerate(rng: &mut Rng) -> System {
+    use crate::gen_sys::{build, param, shape_arity, SHAPES};
+    let scale = *rng.pick(&[1.0, 1.0, 10.0]);
+    let nv = rng.range(8, 14);
+    let pool = [0.0, scale, scale, -scale, 2.0 * scale, 0.5 * scale];
+    let xs: Vec<f64> = (0..nv).map(|_| *rng.pick(&pool)).collect();
+    let mut cons: Vec<Constraint> = (0..nv).map(|i| Constraint::Fixed(i as u32, xs[i])).collect();
+    let want = rng.range(2, 7);
+    let mut tries = 0;
+    let mut extra = 0;
+    while extra < want && tries < 400 {
+        tries += 1;
+        let shape = *rng.pick(&SHAPES);
+        let (ni, np) = shape_arity(shape);
+        let ids: Vec<u32> = (0..ni).map(|_| rng.below(nv) as u32).collect();
+        let params: Vec<f64> = (0..np).map(|_| param(rng, shape, scale)).collect();
+        let c = build(shape, &ids, &params);
+        let (r, deg) = kcl_ezpz::verif_hooks::residual(&c, &xs);
+        let (_, jdeg) = kcl_ezpz::verif_hooks::jacobian_rows(&c, &xs);
+        let quiet = r.iter().all(|v| v.abs() < 1e-9);
+        if (deg || jdeg) && quiet || (quiet && rng.chance(1, 3)) {
+            cons.push(c);
+            extra += 1;
+        }
+    }
+    let mut guesses: Vec<(u32, f64)> = xs.iter().enumerate().map(|(i, v)| (i as u32, *v)).collect();
+    // contradictory pairs on their own scalars
+    let pairs = rng.range(1, 3);
+    let mut contra: Vec<Constraint> = Vec::new();
+    for k in 0..pairs {
+        let id = (nv + k) as u32;
+        let v = scale * rng.sym();
+        guesses.push((id, v));
+        contra.push(Constraint::Fixed(id, v));
+        contra.push(Constraint::Fixed(id, v + scale * (0.5 + rng.unit())));
+    }
+    rng.shuffle(&mut cons);
+    for c in contra {
+        let at = rng.below(cons.len() + 1);
+        cons.insert(at, c);
+    }
+    let reqs = cons.into_iter().map(ConstraintRequest::highest_priority).collect();
+    let mut sys = System::default_cfg(reqs, guesses, "pinned");
+    sys.scale = scale;
+    sys
+}
+
+/// Collapse part of the geometry in the guess: about half of the variables get one common value, so
+/// lines of zero length, coincident points and zero-radius arcs occur and several different requests
+/// raise their degeneracy flag in the same run.
+pub fn with_collapsed_guess(rng: &mut Rng, mut sys: System) -> System {
+    let v = sys.scale * rng.sym();
+    for g in sys.guesses.iter_mut() {
+        if rng.chance(1, 2) {
+            g.1 = v;
+        }
+    }
+    sys
+}
+
 pub fn with_contradictions(rng: &mut Rng, mut sys: System) -> System {
     let n = sys.guesses.len();
     if n == 0 {
